@@ -12,11 +12,14 @@
      held below it.  f_abandoned f x: x was accepted, is no longer held and is not on the
      finalised chain.  check_finalisation: the three clauses of the property as one predicate on
      the observables before/after a request (the driver evaluates it on the Go observables).
-   * history_ok g st ops: no added header carries the genesis hash (no hash collision with
-     genesis) and no request carries a set id below the highest recorded one (a request with an
-     admissible target and a lower set id is refused by setHighestRoundAndSetID after
-     handleFinalisedBlock has already written; that failure mode is outside the property text
-     and outside these theorems; the model reproduces it and the harness exercises it). *)
+     f_accepts f h setid: h is admissible and setid is not below the set id of the last accepted
+     request (rounds are free).  f_request: the specification's transition for a request.
+   * history_ok g ops: no added header carries the genesis hash (no hash collision with genesis;
+     the code compares sub-chain hashes with bs.genesisHash).  Nothing is assumed about the
+     requests: targets, rounds and set ids are arbitrary.
+   * The model mirrors SetFinalisedHash AFTER fixes/C17-setid-check-before-write.patch (the set
+     id is compared before anything is written).  The pinned order is kept as
+     set_finalised_late and refuted by C17_setid_late_refuted. *)
 From Coq Require Import List NArith ZArith Bool Permutation.
 From Common Require Import Outcome.
 From BlockTree Require Import Model Spec ProofsSpec.
@@ -24,94 +27,112 @@ From C17 Require Import Model Spec ProofsAssoc Proofs ProofsFinal ProofsCheck.
 Import ListNotations.
 Local Open Scope N_scope.
 
-(* The finalised head only moves to a known descendant of the previous head: a request for a
-   held block succeeds and makes it the head, and such a block descends from the previous head
-   through parent links; ANY OTHER request (stale ancestor, block of an abandoned fork, unknown
-   or never added hash) fails and leaves the whole state, not only the observables, unchanged. *)
+(* The finalised head only moves to a known descendant of the previous head: an accepted request
+   (target held = the head or a block below it; set id not below the recorded one) succeeds,
+   its target descends from the previous head through parent links and becomes the head;
+   ANY OTHER request (stale ancestor, block of an abandoned fork, unknown or never added hash,
+   stale set id) fails and leaves the whole state, not only the observables, unchanged. *)
 Theorem C17_monotone_or_unchanged : forall g groot ops h round setid,
-  history_ok g (genesis_state g groot) (ops ++ [SFin h round setid]) ->
+  history_ok g ops ->
   let st := srun (genesis_state g groot) ops in
   let f := frun (f_genesis g groot) ops in
-  (f_admissible f h = true ->
+  (f_accepts f h setid = true ->
      descends (s_blocks (f_set f)) (s_root (f_set f)) h
      /\ exists st', set_finalised st h round setid = (st', Ok tt)
                     /\ highest_finalised_hash st' = Ok h)
-  /\ (f_admissible f h = false -> exists c, set_finalised st h round setid = (st, Err c)).
-Proof.
-  intros g groot ops h round setid H st f.
-  destruct (history_ok_app g ops _ _ H) as (H1 & (H2 & _)).
-  pose proof (inv_run g ops _ _ (inv_genesis g groot) H1) as I. fold st f in I.
-  destruct (request_step g st f h round setid I H2) as (A & B). split; [|exact B].
-  intros Ha. split; [exact (admissible_descends g st f h I Ha)|].
-  destruct (A Ha) as (st' & E & I'). exists st'. split; auto.
-  rewrite (obs_highest g st' _ I'), (f_fin_root f h Ha). reflexivity.
-Qed.
+  /\ (f_accepts f h setid = false -> exists c, set_finalised st h round setid = (st, Err c)).
+Proof. exact monotone_or_unchanged. Qed.
 Print Assumptions C17_monotone_or_unchanged.
 
+(* The head never moves otherwise: over a whole history the sequence of heads is a chain of
+   descendants, i.e. whatever the request, the head afterwards is the head before or a block
+   that descended from it through parent links. *)
+Theorem C17_head_moves_only_to_descendants : forall g groot ops h round setid,
+  history_ok g ops ->
+  let st := srun (genesis_state g groot) ops in
+  let f := frun (f_genesis g groot) ops in
+  exists x, highest_finalised_hash (fst (set_finalised st h round setid)) = Ok x
+            /\ descends (s_blocks (f_set f)) (s_root (f_set f)) x.
+Proof. exact head_moves_only_to_descendants. Qed.
+Print Assumptions C17_head_moves_only_to_descendants.
+
 (* After every request of every history the observables satisfy the property predicate: the
-   head is the target after a success / nothing changed after a refusal; every block of the
-   finalised chain is answered by GetHashByNumber; no abandoned block is retrievable
-   (HasHeader, GetHeader, unfinalisedBlocks) or keeps its state trie in memory, unless a block
-   that is still held has the same state root. *)
+   head is the target after an accepted request / nothing changed after any other; every block
+   of the finalised chain is answered by GetHashByNumber and is in the database's number index;
+   no abandoned block is retrievable (HasHeader, GetHeader, unfinalisedBlocks) or keeps its
+   state trie in memory, unless a block that is still held has the same state root. *)
 Theorem C17_every_request_satisfies_the_property : forall g groot ops h round setid blocks nums,
-  history_ok g (genesis_state g groot) (ops ++ [SFin h round setid]) ->
+  history_ok g ops ->
   let st := srun (genesis_state g groot) ops in
   let f := frun (f_genesis g groot) ops in
   roots_ok (f_fin f h) blocks ->
-  check_finalisation f h (is_okb (snd (set_finalised st h round setid)))
+  check_finalisation f h setid (is_okb (snd (set_finalised st h round setid)))
                      (observe st blocks nums)
                      (observe (fst (set_finalised st h round setid)) blocks nums) = true.
 Proof.
   intros g groot ops h round setid blocks nums H st f Hr.
-  destruct (history_ok_app g ops _ _ H) as (H1 & (H2 & _)).
   exact (check_finalisation_holds g st f h round setid blocks nums
-           (inv_run g ops _ _ (inv_genesis g groot) H1) H2 Hr).
+           (inv_run g ops _ _ (inv2_genesis g groot) H) Hr).
 Qed.
 Print Assumptions C17_every_request_satisfies_the_property.
 
 (* the same, clause by clause, about any state reached by a history *)
 Theorem C17_finalised_chain_by_number : forall g groot ops n x,
-  history_ok g (genesis_state g groot) ops ->
+  history_ok g ops ->
   In (n, x) (f_chain (frun (f_genesis g groot) ops)) ->
   bs_hash_by_number (srun (genesis_state g groot) ops) n = Ok x.
 Proof.
   intros g groot ops n x H Hin.
-  exact (obs_by_number g _ _ (inv_run g ops _ _ (inv_genesis g groot) H) n x Hin).
+  exact (obs_by_number g _ _ (proj1 (inv_run g ops _ _ (inv2_genesis g groot) H)) n x Hin).
 Qed.
 Print Assumptions C17_finalised_chain_by_number.
 
+(* ... from persistent storage: the database itself holds the number index entry and the header
+   of every block of the finalised chain (the head included) *)
+Theorem C17_finalised_chain_persisted : forall g groot ops n x,
+  history_ok g ops ->
+  In (n, x) (f_chain (frun (f_genesis g groot) ops)) ->
+  lookup n (bs_num (srun (genesis_state g groot) ops)) = Some x
+  /\ lookup x (bs_hdr (srun (genesis_state g groot) ops)) <> None.
+Proof.
+  intros g groot ops n x H Hin.
+  exact (obs_persisted g _ _ (proj1 (inv_run g ops _ _ (inv2_genesis g groot) H)) n x Hin).
+Qed.
+Print Assumptions C17_finalised_chain_persisted.
+
 Theorem C17_no_leftovers : forall g groot ops x,
-  history_ok g (genesis_state g groot) ops ->
+  history_ok g ops ->
   let st := srun (genesis_state g groot) ops in
   let f := frun (f_genesis g groot) ops in
   f_abandoned f x = true ->
   has_header st x = false /\ get_header st x = None /\ lookup x (bs_unfin st) = None
   /\ forall i, lookup x (f_all f) = Some i -> mem (hi_root i) (bs_tries st) = true ->
                root_shared_with_kept f (hi_root i) = true.
-Proof.
-  intros g groot ops x H st f Ha.
-  pose proof (inv_run g ops _ _ (inv_genesis g groot) H) as I. fold st f in I.
-  destruct (obs_abandoned g st f I x Ha) as (Hu & Hh).
-  unfold has_header, get_header. rewrite Hu, Hh. repeat split; auto.
-  intros i _ Hm. exact (obs_tries g st f I _ Hm).
-Qed.
+Proof. exact no_leftovers. Qed.
 Print Assumptions C17_no_leftovers.
 
 (* non-vacuity: forks, a finalisation that abandons two blocks, then a stale, an abandoned and
-   an unknown target, all refused with the state unchanged *)
+   an unknown target and a stale set id, all refused with the state unchanged; then an accepted
+   request in a higher set *)
 Example C17_nonvacuous :
   let add i p n := SAdd (mkHeader i p n DPrimary) (1000 + i) 0%Z in
-  let ops := [add 1 100 1; add 2 1 2; add 3 1 2; add 4 100 1; SFin 2 1 0] in
+  let ops := [add 1 100 1; add 2 1 2; add 3 1 2; add 4 100 1; add 5 2 3; SFin 2 1 1] in
   let st := srun (genesis_state 100 1000) ops in
-  history_ok 100 (genesis_state 100 1000) (ops ++ [SFin 1 2 0; SFin 3 3 0; SFin 77 4 0])
+  let f := frun (f_genesis 100 1000) ops in
+  history_ok 100 ops
   /\ highest_finalised_hash st = Ok 2
   /\ map (bs_hash_by_number st) [0; 1; 2] = [Ok 100; Ok 1; Ok 2]
-  /\ map (has_header st) [100; 1; 2; 3; 4] = [true; true; true; false; false]
-  /\ bs_tries st = [1002]
-  /\ f_abandoned (frun (f_genesis 100 1000) ops) 3 = true
-  /\ snd (set_finalised st 1 2 0) = Err e_not_in_chain
-  /\ snd (set_finalised st 3 3 0) = Err e_unknown
-  /\ snd (set_finalised st 77 4 0) = Err e_unknown.
+  /\ map (fun n => lookup n (bs_num st)) [0; 1; 2; 3] = [Some 100; Some 1; Some 2; None]
+  /\ map (has_header st) [100; 1; 2; 3; 4; 5] = [true; true; true; false; false; true]
+  /\ bs_tries st = [1005; 1002]
+  /\ f_abandoned f 3 = true
+  /\ map (fun h => f_accepts f h 1) [1; 3; 77; 5] = [false; false; false; true]
+  /\ f_accepts f 5 0 = false
+  /\ set_finalised st 1 2 1 = (st, Err e_not_in_chain)
+  /\ set_finalised st 3 3 1 = (st, Err e_unknown)
+  /\ set_finalised st 77 4 1 = (st, Err e_unknown)
+  /\ set_finalised st 5 5 0 = (st, Err e_setid)
+  /\ snd (set_finalised st 5 0 2) = Ok tt.
 Proof. vm_compute. repeat split; auto; intro; discriminate. Qed.
 
 (* With the pinned pre-fix BlockTree.Prune (before repo commit ba99ff841 "fix: node.prune
@@ -120,7 +141,7 @@ Proof. vm_compute. repeat split; auto; intro; discriminate. Qed.
 Theorem C17_prefix_prune_refuted :
   let st := srun (genesis_state 100 1000) w17_ops in
   let f := frun (f_genesis 100 1000) w17_ops in
-  check_finalisation f 4 (is_okb (snd (set_finalised_prefix st 4 1 0)))
+  check_finalisation f 4 0 (is_okb (snd (set_finalised_prefix st 4 1 0)))
                      (observe st w17_blocks [0; 1; 2])
                      (observe (fst (set_finalised_prefix st 4 1 0)) w17_blocks [0; 1; 2]) = false
   /\ has_header (fst (set_finalised_prefix st 4 1 0)) 2 = true
@@ -128,3 +149,23 @@ Theorem C17_prefix_prune_refuted :
   /\ f_abandoned (f_fin f 4) 2 = true.
 Proof. exact prefix_leaves_abandoned_block. Qed.
 Print Assumptions C17_prefix_prune_refuted.
+
+(* The pinned order of SetFinalisedHash before fixes/C17-setid-check-before-write.patch (the set
+   id is compared in setHighestRoundAndSetID, after handleFinalisedBlock has written): a request
+   the specification does not accept (stale set id) is refused but changes the state, and the
+   same target is afterwards refused even with a valid set id. *)
+Theorem C17_setid_late_refuted :
+  let st := srun (genesis_state 100 1000) w17s_ops in
+  let f := frun (f_genesis 100 1000) w17s_ops in
+  let st' := fst (set_finalised_late st 2 2 0) in
+  f_accepts f 2 0 = false
+  /\ snd (set_finalised_late st 2 2 0) = Err e_setid
+  /\ check_finalisation f 2 0 false (observe st w17s_blocks [0; 1; 2]) (observe st' w17s_blocks [0; 1; 2]) = false
+  /\ lookup 2 (bs_unfin st) <> None /\ lookup 2 (bs_unfin st') = None
+  /\ lookup 2 (bs_num st) = None /\ lookup 2 (bs_num st') = Some 2
+  /\ f_accepts f 2 1 = true
+  /\ snd (set_finalised_late st' 2 3 1) = Err e_missing_block
+  /\ set_finalised st 2 2 0 = (st, Err e_setid)
+  /\ snd (set_finalised st 2 3 1) = Ok tt.
+Proof. exact late_setid_changes_state. Qed.
+Print Assumptions C17_setid_late_refuted.
